@@ -4841,6 +4841,22 @@ fn process_relocation<'data, 'scope, A: Arch<Platform = Elf>, R: Relocation>(
             }
         } else if flags_to_add.needs_direct() && flags.is_interposable() {
             if section_is_writable {
+                // The symbolic dynamic relocation that we emit for this rewrites a whole
+                // address-sized word, so the field needs to be that wide.
+                if rel_info.kind == RelocationKind::Absolute
+                    && !matches!(
+                        rel_info.size,
+                        linker_utils::elf::RelocationSize::ByteSize(8)
+                    )
+                {
+                    bail!(
+                        "Relocation {} on a {} field cannot be used against a symbol that's \
+                        resolved at runtime. Please recompile with -fPIC. {}",
+                        A::rel_type_to_string(r_type),
+                        rel_info.size,
+                        resources.symbol_debug(symbol_id),
+                    );
+                }
                 common.allocate(part_id::RELA_DYN_GENERAL, elf::RELA_ENTRY_SIZE);
             } else if flags.is_function() {
                 // Create a PLT entry for the function and refer to that instead.
